@@ -6,7 +6,7 @@
 (*           node t = 0..L of the path, what the code returned for         *)
 (*             xs  derive_from_path one step at a time  (m/i_t from xs[t-1])*)
 (*             xp  derive_from_path along the whole prefix from the root   *)
-(*             pu  get_xpub(xs)                                            *)
+(*             pu  get_xpub(xs)          pi  get_xpub(pu)                  *)
 (*             ps  derive_from_path("M/i_t", pu[t-1])    (public step)     *)
 (*             pp  derive_from_path("M/i_j+1/../i_t", pu[j])               *)
 (*             kp  CKDpriv(k[t-1], c[t-1], i_t)     as ser256(k) || c      *)
@@ -16,7 +16,8 @@
 (*           recomputes every node FROM THE SEED (PathNodes) and judges.   *)
 (*           The published BIP32 vectors are such events with xs / pu set  *)
 (*           to the published strings (spec self-test).                    *)
-(*   deser   Base58Check string -> accept/reject (+ fields)                *)
+(*   deser   Base58Check string -> accept/reject (+ fields; pd = the       *)
+(*           return_dict form re-packed as the 78-byte payload)            *)
 (*   ser     fields -> serialized_extended_key -> string, and back         *)
 (***************************************************************************)
 EXTENDS Bip32, Secp256k1, Json, IOUtils, TLC
@@ -61,6 +62,7 @@ NodeVerdict(e, ns, t) ==          \* t = depth 0..Len(e.path); ns[t+1] is the sp
          Judge(nd.xp, xok, xstr, "path-xprv"),
          Same(nd.xs, nd.xp, "path-differs-from-steps"),
          Judge(nd.pu, xok, pstr, "xpub"),
+         Judge(nd.pi, xok, pstr, "xpub-of-xpub"),
          IF hard THEN (IF nd.ps.st = "ok" THEN "hardened-child-derived-from-public-key" ELSE "ok")
          ELSE IF t = 0 THEN Judge(nd.ps, xok, pstr, "public-step")
          ELSE Judge(nd.ps, qok, qstr, "public-step"),
@@ -96,7 +98,8 @@ Fields(x) == Version(x) \o <<x.depth>> \o x.fp \o x.idx \o x.cc \o (IF x.prv THE
 DeserVerdict(e) ==
     LET d == DeserXKeyStr(e.s) IN
     IF e.acc # d.ok THEN (IF d.ok THEN "deser-rejects-valid-key" ELSE "deser-accepts-invalid-key")
-    ELSE IF d.ok /\ e.hasf /\ e.f # Fields(d.v) THEN "deser-fields-wrong" ELSE "ok"
+    ELSE IF d.ok /\ e.hasf /\ e.f # Fields(d.v) THEN "deser-fields-wrong"
+    ELSE Judge(e.pd, d.ok, IF d.ok THEN SerXKey(d.v) ELSE <<>>, "deser-dict")     \* return_dict = TRUE, re-packed as payload
 
 SerVerdict(e) ==
     LET key == IF e.prv THEN NFromBE(e.key) ELSE <<NFromBE(SubSeq(e.key, 1, 32)), NFromBE(SubSeq(e.key, 33, 64))>>
